@@ -78,7 +78,7 @@ def judge(job, res):
         failed = {os.path.relpath(f, proj) if os.path.isabs(f) else f for f in (r.get("failedFiles") or [])}
         if failed: interesting = True
         if failed & changed: v.append(Violation("C15", "failed-and-changed-overlap", str(sorted(failed & changed)), w))
-        if not r["codemod"].startswith("pixee:") and r["changeset"]:
+        if r["codemod"].split(":")[0] in ("sonar", "semgrep", "codeql", "defectdojo") and r["changeset"]:      # SAST origins only (plug-in find-and-fix codemods have their own origin)
             if not r.get("detectionTool"): v.append(Violation("C15", "sast-result-without-detection-tool", r["codemod"], w))
             fs = [f for cs in r["changeset"] for c in cs["changes"] for f in (c.get("findings") or [])]
             if any(not f.get("id") or not f.get("rule", {}).get("id") for f in fs): v.append(Violation("C15", "finding-without-identifiers", r["codemod"], w))
